@@ -224,6 +224,13 @@ Fixpoint plain (e:iexpr) : bool :=
 
 Definition is_zero_av (v:av) : bool := forallb (bt_eqb B0) (bits v) && bt_eqb (sgn v) B0.
 
+(* a length precondition `if (N2kMsg.DataLen < k) return false;` : decided from the (static) length of the setter's payload *)
+Definition len_check (ap:list abyte) (c:iexpr) : option bool :=
+  match c with
+  | ELt EDataLen (EConst k) => Some (k <=? Z.of_nat (length ap))
+  | _ => None
+  end.
+
 Fixpoint arun (ap:list abyte) (p:pstmt) (st:ast) : option ast :=
   match a_ret st with
   | Some _ => Some st
@@ -262,7 +269,10 @@ Fixpoint arun (ap:list abyte) (p:pstmt) (st:ast) : option ast :=
     | POutD j _ => Some (aadd_out j SOther st)
     | POutT j k => Some (aadd_out j SOther st)
     | PIf c (PRet (EConst 0)) PSkip =>
-      match abs (slot_env (a_slots st)) c with Some v => if is_zero_av v then Some st else None | None => None end
+      match len_check ap c with
+      | Some b => if b then Some st else None
+      | None => match abs (slot_env (a_slots st)) c with Some v => if is_zero_av v then Some st else None | None => None end
+      end
     | PRet (EConst z) => Some (aset_ret (negb (z =? 0)) st)
     | _ => None
     end
